@@ -18,7 +18,55 @@ CLAIMED = {
    technique="Coq proof (induction over program structure) + extraction-based differential correspondence",
    design="6/C03"),
 }
+CLAIMED["C01"] = dict(
+   text="Theorems over a statement-by-statement transcription of parse_line (12-field state machine), tokens_to_redirections, "
+        "from_tokens, split_tokens_by_pipes, drain_env_tokens and the from_line glue: for every command word and every list of "
+        "single- or double-quoted arguments (any texts, any number, any spacing) the line is cut into exactly those tokens "
+        "(C01_tokenize), planned as ONE foreground command whose words are the written texts with no pipe / background / "
+        "redirection / assignment (C01_plan_quoted, C01_post_passes) and never split by the list splitter (C01_split); "
+        "induction over arguments and characters, closed under the global context. PARTIAL: the backslash-escaped style is not "
+        "proved through the tokenizer; there the full statement is refuted (C01_esc_refuted; recorded classes esc-expanded, "
+        "esc-amp-last, esc-trailing-blank) and the rest is carried by the correspondence check: exhaustive short strings through "
+        "the real parse_line / redirection parser vs the extracted model, the real from_line on the property's whole domain "
+        "(3 styles x all texts up to length 2 (3) x 6 positions + random) with the property oracle on the implementation's plan, "
+        "and argv seen by a helper through cicada -c.",
+   note="Trusted: Coq kernel, extraction, drivers, tools/tables2coq.py (Unicode Nd table). The expansion passes enter "
+        "C01_plan_quoted as a parameter required to be inert on quoted tokens (their model is C10-C12's); in the correspondence "
+        "layer the implementation's own expansion output is used. execve argument construction only exercised by L2.",
+   technique="Coq proof (state-machine invariants by induction) + extraction-based differential correspondence",
+   design="6/C01")
+
 NOT_APPLICABLE = {}
+
+
+def from_notes(p):
+    """Manifest entry (a) of notes/<p>.md written by the builder of that check."""
+    import re
+    f = os.path.join(VERIF, "notes", p + ".md")
+    if not os.path.exists(f):
+        return None
+    txt = open(f).read()
+    m = re.search(r"##\s*\(a\)[^\n]*\n(.*?)(?=\n##\s*\(b\)|\Z)", txt, re.S)
+    if not m:
+        return None
+    sec = m.group(1)
+    out = {}
+    for key in ("technique", "text", "note"):
+        mm = re.search(r"(?:\*\*|`)" + key + r"(?:\*\*|`)[^:\n]*:\s*(.*?)(?=\n\s*[-*]?\s*(?:\*\*|`)(?:technique|text|note)(?:\*\*|`)|\Z)", sec, re.S)
+        if mm:
+            out[key] = " ".join(mm.group(1).replace("**", "").replace("`", "").split()).strip('" ')
+    if {"technique", "text", "note"} <= set(out):
+        out["design"] = "6/" + p
+        return out
+    return None
+
+
+for _p in ["C02", "C04", "C05", "C06", "C07", "C08", "C09", "C10", "C11", "C12", "C13", "C14", "C15", "C16", "C17", "C18", "C19", "C20"]:
+    if _p not in CLAIMED and os.path.exists(os.path.join(VERIF, "drive", _p.lower() + ".py")) \
+            and os.path.exists(os.path.join(VERIF, "coq", "theories", "Properties", _p + ".v")):
+        _e = from_notes(_p)
+        if _e:
+            CLAIMED[_p] = _e
 
 def main():
     props = [json.loads(l)["id"] for l in open(os.path.join(VERIF, "properties.jsonl"))]
@@ -55,7 +103,8 @@ def main():
                                        "with the implementation (in-process through cfg(cicada_verif) hooks, and the real binary)"}],
         "checks": checks,
         "not_applicable": na,
-        "notes": "fix: commits in /repo: 83ed44b (list loop break->continue), 99eac62 (empty trailing segment); see known_findings.txt",
+        "notes": "Genuine defects repaired in /repo by fix: commits are listed as 'fixed:' lines in known_findings.txt; "
+                 "recorded (unrepaired) ones as 'finding:' lines. See DESIGN.md.",
     }
     json.dump(m, open(os.path.join(VERIF, "MANIFEST.json"), "w"), indent=1)
     print("MANIFEST.json: %d checks, %d not_applicable" % (len(checks), len(na)))
